@@ -104,6 +104,7 @@ def _harness(c, cfg):
     rewards = []
     k = 0
     simple = 1.0
+    seen = []          # (record, fields as first seen) to detect later mutation of earlier records
     while not env._done and k < ep.N + 1:
         n_before = len(env.broker.track_record)
         a = ep.action(k) if not cfg.get("sells") else ep.action(ep.N - k)
@@ -151,7 +152,20 @@ def _harness(c, cfg):
         if kind == "RewardSimpleReturn":
             simple = simple * (1 + r)
         c.record("nlv_post_%d" % k, reb.context_post.nlv)
+        seen.append((reb, reb.time, reb.context_pre.nlv, reb.context_post.nlv,
+                     dict(reb.context_pre.nr_contracts), dict(reb.context_post.nr_contracts),
+                     dict(reb.context_post.weights), [(t.contract.symbol, t.quantity, t.acq_price) for t in reb.trades]))
     c.prove("C07:one-record-per-step-overall", len(env.broker.track_record) == k)
+    # ---- the record is an account of the past: later steps must not have changed earlier entries
+    for i, (reb, t0, pre0, post0, nr_pre0, nr_post0, w0, tr0) in enumerate(seen):
+        c.prove("C07:earlier-record-still-in-place", env.broker.track_record[i] is reb and bool(reb.time == t0))
+        c.prove_eq("C07:earlier-record-unchanged:pre-nlv", reb.context_pre.nlv, pre0)
+        c.prove_eq("C07:earlier-record-unchanged:post-nlv", reb.context_post.nlv, post0)
+        for con in ep.contracts:
+            c.prove_eq("C07:earlier-record-unchanged:holdings", reb.context_pre.nr_contracts.get(con, 0.0), nr_pre0.get(con, 0.0))
+            c.prove_eq("C07:earlier-record-unchanged:holdings", reb.context_post.nr_contracts.get(con, 0.0), nr_post0.get(con, 0.0))
+            c.prove_eq("C07:earlier-record-unchanged:weights", reb.context_post.weights.get(con, 0.0), w0.get(con, 0.0))
+        c.prove("C07:earlier-record-unchanged:trades", len(reb.trades) == len(tr0))
     if kind == "RewardSimpleReturn" and cfg.get("latency", "zero") == "zero" and k >= 1:
         final_quotes = _quotes_at(c, ep, upto=ep.T[k])
         c.prove_eq("C07:simple-returns-compound-to-final/initial", simple, led.nlv(final_quotes, mult) / 100.0)
